@@ -3653,6 +3653,10 @@ func (e *Env) returnFactsA(sel func(*ssa.Return) bool, why string, assume []Fact
 		for _, f := range e.factsAt(r.Block(), r, assume) {
 			m[f.Key()] = f
 		}
+		// `return f(x)`: when this return succeeds, f succeeded
+		for _, f := range e.tailCallFacts(r) {
+			m[f.Key()] = f
+		}
 		if len(assume) > 0 && e.unreachableUnder(r.Block(), assume) {
 			continue // this return cannot be taken by a caller that knows `assume`
 		}
